@@ -19,6 +19,9 @@ from harness.core import Prop, outcome, unrat
 
 EPS = 2.0 ** -52
 REL = 1e-9
+# Behaviour the property text does not reach (the value returned as "probability" for n = 0 shuffles) is compared with
+# the model and the outcome recorded as a feature; it is judged (impl-vs-model) only with this switch on.
+JUDGE_OUTSIDE_PROPERTY = False
 
 
 class PermRecorder:
@@ -662,8 +665,10 @@ class C14(Prop):
             spec = {"r": r, "images_unchanged": True, "mask_unchanged": True}
             ok = "raises" not in impl and impl["images_unchanged"] and impl["mask_unchanged"] and abs(impl["r"] - r) <= tol
             impl["n_perm_calls"], impl["p_is_nan"] = len(rec.calls), "raises" not in impl and impl["p"] is None
-            return outcome(impl, model, spec, spec_ok=ok, model_ok=ok and sig_ok and impl["p_is_nan"] and model["p_is_nan"],
-                           hyp=False, features=feats | {"n0(p is NaN; fraction clause not applicable)"})
+            agrees = impl["p_is_nan"] and sig_ok
+            return outcome(impl, model, spec, spec_ok=ok, model_ok=ok and model["p_is_nan"] and (agrees or not JUDGE_OUTSIDE_PROPERTY),
+                           hyp=False, features=feats | {"n0(fraction clause not applicable): p is NaN, " +
+                                                        ("as modelled" if agrees else "DIFFERS(recorded only)")})
         spec = {"r": r, "p_is_fraction_of_n_in_[0,1]": True, "images_unchanged": True, "mask_unchanged": True}
         ok = "raises" not in impl and impl["images_unchanged"] and impl["mask_unchanged"] and impl["p"] is not None
         if ok:
